@@ -67,6 +67,7 @@ var findingFeatures = map[string][]string{
 	"nil-func-field-not-nil":                 {"structrole.nil-func-field", "cok.func-nil"},
 	"field-pointer-stale-after-whole-assign": {"structrole.field-pointer-whole-assign"},
 	"general-field-read-aliases-field":       {"structrole.general-field-read"},
+	"func-field-read-aliases-field":          {"structrole.general-field-read"},
 	// stream 8 (zero value on the failing path)
 	"range-assign-to-non-local":              {"cok.range-nonlocal"},
 	"tuple-assign-fields-of-captured-struct": {"cok.captured-struct-tuple"},
